@@ -40,3 +40,19 @@ pub fn bytes_match(a: &[u8], file: &[u8], base: usize) -> bool {
         && (n < 7 || a[6] == file[base + 6])
         && (n < 8 || a[7] == file[base + 7])
 }
+
+/// `fut.verif_now()`: poll once, the future must be ready.  The mirror generator writes `clone_output_sync.rs`, a
+/// copy of `clone_output.rs` in which `async fn` became `fn` and every `.await` became `.verif_now()`: for an
+/// environment whose leaf futures are always ready (the harness mocks) that is the same computation, but the
+/// functions are no longer coroutines, so their locals are ordinary variables that CBMC constant-propagates.
+pub trait VerifNow: std::future::Future + Sized {
+    fn verif_now(self) -> Self::Output {
+        let mut cx = noop_cx();
+        let mut f = std::pin::pin!(self);
+        match f.as_mut().poll(&mut cx) {
+            std::task::Poll::Ready(v) => v,
+            std::task::Poll::Pending => panic!("pending future in an always-ready environment"),
+        }
+    }
+}
+impl<F: std::future::Future> VerifNow for F {}
